@@ -74,9 +74,11 @@ def logZ (Lx Ly : Nat) : List Op :=
   [ lineOp ((pyRange2 0 (2 * Ly)).map fun y => [1, y]) Pauli.Z,
     lineOp ((pyRange2 0 (2 * Lx)).map fun x => [x, 1]) Pauli.Z ]
 
-/-- `get_deformation(location, deformation_name, deformation_axis)`; `none` = ValueError -/
-def getDeformation (name axis : String) (loc : Coord) : Option PauliMap :=
-  deformBy qubitAxis name axis loc
+/-- `get_deformation(location, deformation_name, deformation_axis='y')`; `none` = ValueError.
+    `axis = none`: the caller does not pass `deformation_axis` (as `deform(name)` of the visualizer
+    and of the simulation inputs without `deformation_kwargs`), the signature default `'y'` applies -/
+def getDeformation (name : String) (axis : Option String) (loc : Coord) : Option PauliMap :=
+  deformBy qubitAxis name (axis.getD "y") loc
 
 /-- the explicit independent family of `n − k` generators of the rank clause
     (`C01Toric2DCode.generators_independent`, proved in `Proofs/LatToric2DCodeRank.lean`): all stabilizer
